@@ -81,3 +81,48 @@ func VerifC07PullHTTPPayloadFidelity() {
 		}
 	}
 }
+
+// verif:harness props=C04 tier=quick weight=25
+// verif:bounds TWO concurrent callers present the same STALE lease id (unknown to the store, or the expired lease of the one message) to ack / nack / dead-letter through the pull API operations on a REAL MemoryStore, recent-lease-op (idempotency) cache enabled; every interleaving of the two calls at mutex acquisitions: both are conflicts (409), neither has an effect beyond returning the expired message to the queue
+func VerifC04ConcurrentStaleCallsAreBothConflicts() {
+	now := time.Unix(1700000000, 0)
+	ms := queue.NewMemoryStore(queue.WithNowFunc(func() time.Time { return now }))
+	ok := ms.Enqueue(queue.Envelope{ID: "m1", Route: "/r", Target: "pull", Payload: []byte("p")}) == nil
+	res, err := ms.Dequeue(queue.DequeueRequest{Route: "/r", Batch: 1, LeaseTTL: time.Minute})
+	vrt.Assume(ok && err == nil && len(res.Items) == 1)
+	current := res.Items[0].LeaseID
+	s := NewServer(ms)
+	s.now = func() time.Time { return now }
+	stale := "L-from-an-earlier-epoch"
+	expired := vrt.Bool("the-stale-id-is-the-expired-current-lease")
+	if expired {
+		stale = current
+		now = now.Add(2 * time.Minute)
+	}
+	op := vrt.Choose("op", 3)
+	call := func() *OpError {
+		switch op {
+		case 0:
+			return s.AckSingle("/r", stale)
+		case 1:
+			return s.NackSingle("/r", stale, false, "", time.Second)
+		}
+		return s.NackSingle("/r", stale, true, "why", 0)
+	}
+	var rB *OpError
+	vrt.Go(func() { rB = call() })
+	rA := call()
+	vrt.Join()
+	vrt.Assert("C04.concurrent.first-stale-call-is-a-conflict", rA != nil && rA.StatusCode == 409)
+	vrt.Assert("C04.concurrent.second-stale-call-is-a-conflict-too", rB != nil && rB.StatusCode == 409)
+	list, lerr := ms.ListMessages(queue.MessageListRequest{Limit: 5})
+	okState := lerr == nil && len(list.Items) == 1 && list.Items[0].ID == "m1"
+	if okState {
+		if expired {
+			okState = list.Items[0].State == queue.StateQueued
+		} else {
+			okState = list.Items[0].State == queue.StateLeased
+		}
+	}
+	vrt.Assert("C04.concurrent.no-effect-beyond-requeueing-the-expired-message", okState)
+}
